@@ -123,6 +123,7 @@ func (c *Collection) StartDCPFeed(
 		feed.events.push(nil) // push an eof
 	} else {
 		// Register the feed with the collection for future notifications:
+		verifLock(c.bucket.mutex, "feed.register")
 		c.bucket.mutex.Lock()
 		c.bucket.collectionFeeds[c.DataStoreNameImpl] = append(c.bucket.collectionFeeds[c.DataStoreNameImpl], feed)
 		c.bucket.mutex.Unlock()
@@ -171,12 +172,14 @@ func (c *Collection) postNewEvent(e *event) {
 }
 
 func (c *Collection) postEvent(event *sgbucket.FeedEvent) {
+	verifLock(c.bucket.mutex, "post")
 	c.bucket.mutex.Lock()
 	feeds := c.bucket.collectionFeeds[c.DataStoreNameImpl]
 	c.bucket.mutex.Unlock()
 
 	for _, feed := range feeds {
 		if feed != nil {
+			verifPoint("feed.push", feed.args.ID)
 			if feed.args.KeysOnly {
 				var eventNoValue sgbucket.FeedEvent = *event // copies the struct
 				eventNoValue.Value = nil
@@ -265,6 +268,7 @@ func (feed *dcpFeed) run() {
 	if feed.args.Terminator != nil {
 		go func() {
 			<-feed.args.Terminator
+			verifPoint("feed.term", feed.args.ID)
 			debug("%s terminator closed", feed)
 			feed.events.close()
 		}()
@@ -275,6 +279,7 @@ func (feed *dcpFeed) run() {
 	}
 
 	for {
+		verifPoint("feed.pull", feed.args.ID)
 		if event := feed.events.pull(); event != nil {
 			feed.callback(*event)
 			if event.Cas > feed.lastCas {
